@@ -178,7 +178,7 @@ func sharedStateScenario(r *Run) {
 		disk.Plan("c29a.json", 1, OpenPlan{Chunks: []int{4096}, ErrAt: -1, Gate: true})
 		disk.Plan("c29b.json", 1, OpenPlan{Chunks: []int{1000, 4096}, ErrAt: -1, Gate: true})
 	}
-	installSim(ctl, disk, "json.worker.send", "json.reader.submit", "json.reader.done")
+	installSim(ctl, disk, "json.worker.send", "json.reader.submit", "json.reader.done", "json.consumer.loop")
 	defer installSim(nil, nil)
 	planned, err := PlanSQL(bubbleCtx(), sql, map[string]*SimTable{}, optimize)
 	if err != nil {
